@@ -230,6 +230,19 @@ func char(s string, position int) string {
 	return c
 }
 
+// followsOperand reports whether the last token ends an operand. A minus sign after an
+// operand is the binary operator (a-1), not the sign of a number literal.
+func followsOperand(tokens []Token) bool {
+	if len(tokens) == 0 {
+		return false
+	}
+	switch tokens[len(tokens)-1].tokenType {
+	case IDENTIFIER, NUMBER_LITERAL, STRING_LITERAL, BOOL_LITERAL, NIL_LITERAL, CLOSING_ROUND_BRACKET, CLOSING_SQUARE_BRACKET:
+		return true
+	}
+	return false
+}
+
 func Tokenize(source string) ([]Token, error) {
 	var err error = nil
 	tokens := []Token{}
@@ -296,7 +309,7 @@ func Tokenize(source string) ([]Token, error) {
 			// Create bool token.
 			token = newToken(match, BOOL_LITERAL, ogRow, ogColumn)
 			i += len(match)
-		} else if match := regexp.MustCompile(`^-?\d+(\.\d+)?`).FindString(source[i:]); match != "" {
+		} else if match := regexp.MustCompile(`^-?\d+(\.\d+)?`).FindString(source[i:]); match != "" && !(match[0] == '-' && followsOperand(tokens)) {
 			// Create number token.
 			token = newToken(match, NUMBER_LITERAL, ogRow, ogColumn)
 			i += len(match)
